@@ -683,7 +683,7 @@ func (e *Exec) seqTerm(st *State, s *SeqV) *smt.Term {
 	k := c.BoundVar("k", smt.BV(64))
 	at := func(x, i *smt.Term) *smt.Term { return c.App(fmt.Sprintf("seq_at%d", s.W), smt.BV(s.W), x, i) }
 	ln := func(x *smt.Term) *smt.Term { return c.App("seq_len", smt.BV(64), x) }
-	e.Axioms = append(e.Axioms,
+	e.addAxioms(
 		c.Eq(ln(t), s.Len),
 		c.Forall([]*smt.Term{k}, c.Implies(c.And(c.BVSle(bv64(c, 0), k), c.BVSlt(k, s.Len)), c.Eq(at(t, k), s.Read(k)))))
 	e.seqNames = append(e.seqNames, seqName{s, t})
@@ -944,7 +944,19 @@ func (se *specEnv) call(n *SCall) Value {
 		return e.ifacePayload(iv, T)
 	case "ite":
 		cond := se.evalBool(n.Args[0])
-		return e.merge(cond, se.eval(n.Args[1]), se.eval(n.Args[2]))
+		a, b := se.eval(n.Args[1]), se.eval(n.Args[2])
+		a, b = se.nilLike(a, b), se.nilLike(b, a)
+		if ua, ok := a.(Untyped); ok {
+			if sb, ok := b.(Scalar); ok && sb.T.Sort.IsBV() {
+				a = Scalar{T: c.BVC(uint64(ua.V), sb.T.Sort.W), Typ: sb.Typ}
+			}
+		}
+		if ub, ok := b.(Untyped); ok {
+			if sa, ok := a.(Scalar); ok && sa.T.Sort.IsBV() {
+				b = Scalar{T: c.BVC(uint64(ub.V), sa.T.Sort.W), Typ: sa.Typ}
+			}
+		}
+		return e.merge(cond, a, b)
 	case "addr":
 		switch v := se.eval(n.Args[0]).(type) {
 		case *PtrV:
@@ -1175,4 +1187,21 @@ func (db *SpecDB) isTraceName(n string) bool {
 		}
 	}
 	return false
+}
+
+// nilLike turns a spec nil into the nil value of the other operand's kind.
+func (se *specEnv) nilLike(v, other Value) Value {
+	if _, ok := v.(NilV); !ok {
+		return v
+	}
+	c := se.e.C
+	switch o := other.(type) {
+	case *PtrV:
+		return &PtrV{Elem: o.Elem, Alts: []PtrAlt{{Cond: c.True()}}}
+	case *SliceV:
+		return &SliceV{Elem: o.Elem, Len: bv64(c, 0), Cap: bv64(c, 0), Alts: []SliceAlt{{Cond: c.True()}}}
+	case *IfaceV:
+		return se.e.zero(o.Typ)
+	}
+	return v
 }
